@@ -83,11 +83,15 @@ Proof. exact stale_checkpoint_redoes_work. Qed.
 Print Assumptions C04_stale_checkpoint_refuted.
 
 (* the hypothesis is tied to the code twice: (T) over the step list of State.Unlock regenerated from overlord/state/state.go
-   on every run: the data is marshalled and the checkpoint written before the state lock is released (a deferred unlock, no
-   other unlock before the last Checkpoint call, no goroutine); (C) the second driver observes on the real Unlock that the
+   on every run: in Unlock the data is marshalled and the checkpoint written before the state lock is released (a deferred
+   unlock, no other unlock before the last Checkpoint call, no goroutine); the closure returned by Unlocker - the second
+   release path - goes through s.Unlock() and hands back s.Lock; the bare s.unlock() has no caller in overlord/state other
+   than Unlock itself and ReadState (fresh unmodified state), and s.mu.Unlock() none other than s.unlock(): every lock release
+   that can follow a modification checkpoints first; (C) the drivers observe that what a handler or goroutine recorded before
+   releasing the lock - through Unlock or through Unlocker - is in a completed payload; the second driver also observes on the real Unlock that the
    lock is held during every Checkpoint call and that writes complete in unlock order *)
-Theorem C04_checkpoint_written_under_lock : checkpoint_under_lock unlock_steps = true.
-Proof. exact unlock_writes_under_lock. Qed.
+Theorem C04_checkpoint_written_under_lock : every_release_checkpoints = true.
+Proof. exact every_release_checkpoints_holds. Qed.
 Print Assumptions C04_checkpoint_written_under_lock.
 
 (* non-vacuity: a chain of three tasks whose last do handler fails, restarted after five steps: the first task is Done
